@@ -613,6 +613,12 @@ func recvName(u *core.Unit) string {
 // getter of the same name reads that field. The state machine rules reason
 // about SetWritable / SetReadyState / SetMaxHttpBufferSize … call sites; they
 // mean nothing if the accessor bodies do not do what their names say.
+// setters whose field has no getter method (it is read directly by the mechanism it configures): the store itself is
+// the obligation — an empty SetReadLimit leaves the WebTransport read limit at "unlimited"
+var setterWithoutGetter = map[string]string{
+	"webtransport.Conn.SetReadLimit": "Conn.readLimit",
+}
+
 func accessorAgreement(c *core.Ctx, R string) {
 	c.Rule(R, "accessor agreement (transports.transport, engine.socket, types.HttpContext): every one-parameter SetX method stores exactly its parameter into one field (f = p, f.Store(p) or f.Store(&p)), unconditionally, and the getter X / GetX / IsX of the same type reads that same field (f, f.Load(), *f.Load()) and no other field; Discard stores true into the field Discarded reads; Prototype/Proto likewise")
 	type tspec struct{ pkg, typ string }
@@ -696,6 +702,11 @@ func accessorAgreement(c *core.Ctx, R string) {
 				if ms[gn] != nil {
 					getter = ms[gn]
 				}
+			}
+			if want, must := setterWithoutGetter[ts.pkg+"."+ts.typ+"."+name]; must {
+				n++
+				c.Check(R, keyf("%s.(*%s).%s/stores-its-parameter", ts.pkg, ts.typ, name), m.Pos(), stores == 1 && uncond && field == want, keyf("%d store(s) of the parameter, into %q (want %s), unconditional=%v", stores, field, want, uncond))
+				continue
 			}
 			if getter == nil && stores == 0 {
 				continue // not an accessor pair of this type (e.g. SetHttpServer on server without a stored param is still caught below when a getter exists)
